@@ -292,6 +292,42 @@ def rule_zst(rep, prog):
     return n, len(zst_impls)
 
 
+LEN_CARRIERS = re.compile(r"(Bitmap::mark_dirty|AtomicBitmap::(set_addr_range|set_reset_addr_range))$")
+BIT_MUTATORS = re.compile(r"(AtomicBitmap::(set_bit|reset_bit|reset_addr_range)|atomic::Atomic\w*::(fetch_\w+|store|swap|compare_exchange\w*|compare_and_swap))$")
+
+
+def rule_mark_entries(rep, prog):
+    """R18.4.mark_entry: several zero-count routes call mark_dirty(_, 0) unconditionally, so every implementation of
+    Bitmap::mark_dirty must be a no-op for len == 0. The range routine is (form rule R9.3); an implementation that reaches a
+    bit mutator by any other way - a single-page fast path calling set_bit, an RMW of its own - must do so only where len != 0 is
+    known, and whatever it hands to a length-carrying routine (set_addr_range, an inner mark_dirty) is its own `len`."""
+    from ..bounds import Bounds
+    n = 0
+    for b in prog.bodies:
+        if b.impl_trait != "bitmap::Bitmap" or b.name != "mark_dirty" or b.j.get("impl_derived"):
+            continue
+        bodies = [b] + list(prog.closures_of(b))
+        for cb in bodies:
+            for c in cb.calls():
+                cn = canon(c.target or "")
+                if LEN_CARRIERS.search(cn):
+                    n += 1
+                    a = [deep_strip(x) for x in c.args()]
+                    last = a[-1] if a else ('?',)
+                    ok = cb is b and last[0] == 'param' and len(last) > 2 and last[2] == 'len'
+                    if not ok and cb is b:
+                        ok = Bounds(b.facts_at(c.pos)).nonzero(('param', 3, 'len'))
+                    rep("R18.4.mark_entry", f"{b.key}|{cn.split('::')[-1]}", ok, c.where(),
+                        f"hands {tstr(last)} on as the length; required: its own `len` (so that a zero-length mark stays one down to the range routine), or len != 0 known here")
+                elif BIT_MUTATORS.search(cn):
+                    n += 1
+                    ok = cb is b and Bounds(b.facts_at(c.pos)).nonzero(('param', 3, 'len'))
+                    rep("R18.4.mark_entry", f"{b.key}|{cn.split('::')[-1]}", ok, c.where(),
+                        f"{cn.split('::')[-1]} reached from a mark_dirty implementation outside the range routine" +
+                        ("; len != 0 dominates" if ok else " with len == 0 possible: mark_dirty(offset, 0) - issued by every zero-count stream transfer and copy of nothing - sets a page"))
+    return n
+
+
 def run(ctx, progs):
     for cfg, prog in progs.items():
         ctx.config = cfg
@@ -304,6 +340,8 @@ def run(ctx, progs):
         if "bitmap::backend::atomic_bitmap::AtomicBitmap" in prog.adts:
             from . import c09
             c09.rule_range_form(ctx.ob, prog)
+            n = rule_mark_entries(ctx.ob, prog)
+            ctx.floor("R18.4.mark_entries", n, 4)
         n, z = rule_zst(ctx.ob, prog)
         # a census of hazards (divisions by / pointer differences over size_of::<T>()): fewer of them is not a lost anchor; that the
         # census still sees both kinds is what the fixture's positive control shows on every run
